@@ -67,7 +67,7 @@ specfn('new_event', ['e', 'time', 'asset_id', 'action', 'event_type'],
        'fresh(e) and e.time == time and e.asset_id == asset_id and e.action == action and e.event_type == event_type '
        'and not e.cancelled and not e.executed and e.paused_at is None')
 
-contract('Environment.schedule_event', props=['C01'],
+contract('Environment.schedule_event', props=['C01', 'C14'],
          args={'time': 'real', 'asset_id': 'int', 'action': 'clo', 'event_type': 'real', 'message': 'str'},
          raises={'ValueError': ('time < self._now', {'rejected_changes_nothing': '@frame:'}),
                  'TypeError': ('time >= self._now and action is None', {'uncallable_changes_nothing': '@frame:'})},
@@ -161,7 +161,7 @@ specfn('same_event_fields', ['e'],
        'e.time == old(e.time) and e.cancelled == old(e.cancelled) and e.executed == old(e.executed) and '
        'e.paused_at == old(e.paused_at)')
 
-contract('Environment.cancel_matching_events', props=['C07'], args={'asset_id': 'int?'},
+contract('Environment.cancel_matching_events', props=['C07', 'C06', 'C13'], args={'asset_id': 'int?'},
          ensures={
              'none_is_noop': 'implies(isnone(asset_id), all(same_event_fields(e) for e in refs("Event")))',
              'flags_exactly_matching':
@@ -205,7 +205,7 @@ specfn('sublist_by', ['E', 'O', 'm', 'inv'],
        'all(0 <= m[i] and m[i] < len(O) and E[i] is O[m[i]] and inv[m[i]] == i for i in range(len(E))) and '
        'all(m[i] < m[j] for i in range(len(E)) for j in range(i + 1, len(E)))')
 
-contract('Environment.pause_matching_events', props=['C07'], args={'asset_id': 'int?'},
+contract('Environment.pause_matching_events', props=['C07', 'C06', 'C13'], args={'asset_id': 'int?'},
          ensures={
              'none_is_noop':
                  'implies(isnone(asset_id), all(same_event_fields(e) for e in refs("Event")) and '
@@ -286,7 +286,7 @@ specfn('resumed_fields', ['e'],
        'e.time == old(e.time) + (self._now - old(e.paused_at)) and e.cancelled == old(e.cancelled) and '
        'e.executed == old(e.executed) and e.paused_at == old(e.paused_at)')
 
-contract('Environment.unpause_matching_events', props=['C07'], args={'asset_id': 'int?'},
+contract('Environment.unpause_matching_events', props=['C07', 'C06', 'C13'], args={'asset_id': 'int?'},
          ensures={
              'none_is_noop':
                  'implies(isnone(asset_id), all(same_event_fields(e) for e in old(seq(self._events))) and '
@@ -370,7 +370,7 @@ RUN_INVS = {
         f'all(e is not {TAU} and e.action != method(self, "_terminate") for e in self._paused_events)',
 }
 
-contract('Environment.run', props=['C01', 'C15'], args={'simulation_duration': 'real', 'trace': 'bool'},
+contract('Environment.run', props=['C01', 'C15', 'C14'], args={'simulation_duration': 'real', 'trace': 'bool'},
          requires={
              'no_stale_terminator':
                  'all(e.action != method(self, "_terminate") for e in self._events) and '
